@@ -45,11 +45,18 @@ type Case struct {
 	// was marshalled into it once before; "other" = another value of the type
 	// (all fields zero / nil) was marshalled into it before.
 	Prefill string `json:"prefill,omitempty"`
-	Type  []FieldT       `json:"type"`
-	Val   []FieldV       `json:"val"`
+	// SpareCap: the slices of the value have unused capacity behind their elements.
+	SpareCap bool `json:"spare_cap,omitempty"`
+	// Second: afterwards a second value of the type - a shallow copy (it shares the slices and
+	// pointers of the first, as application structs built from common parts do) whose other
+	// top-level fields are zero - is marshalled into another message; the first message must
+	// still be what it was.
+	Second bool     `json:"second,omitempty"`
+	Type   []FieldT `json:"type"`
+	Val    []FieldV `json:"val"`
 }
 
-const rule = "struct types generated with reflect.StructOf from a spec: 1..6 fields per level, each a dictionary name of the message's application (dict.Default, the per-file embedded dictionaries, generated dictionaries with all 18 type names) x shape {datatype type | another datatype type that converts losslessly (string kinds among themselves, wider integer / float) | lossless native Go type} x {T, *T, []T, []*T}, diam.AVP / *diam.AVP / []*diam.AVP, struct / *struct / []struct / []*struct for grouped AVPs to depth 3, embedded untagged struct, embedded tagged struct x tag form {avp:\"N\", avp:\"N,omitempty\", each alone / after / before a json key}; no code twice per struct level; the message marshalled into is fresh from NewMessage or (3 in 8) already used: carries AVPs added with AddAVP, or the same / a zero value of the struct was marshalled into it before; values incl. zero numbers, empty strings, nil pointers, nil and empty slices; non-trivial = at least 2 fields in total and at least one pointer / slice / nested / embedded shape; distinct by hash of the JSON form of the case"
+const rule = "struct types generated with reflect.StructOf from a spec: 1..6 fields per level, each a dictionary name of the message's application (dict.Default, the per-file embedded dictionaries, generated dictionaries with all 18 type names) x shape {datatype type | another datatype type that converts losslessly (string kinds among themselves, wider integer / float) | lossless native Go type} x {T, *T, []T, []*T}, diam.AVP / *diam.AVP / []*diam.AVP, struct / *struct / []struct / []*struct for grouped AVPs to depth 3, embedded untagged struct, embedded tagged struct x tag form {avp:\"N\", avp:\"N,omitempty\", each alone / after / before a json key}; no code twice per struct level; slices optionally with spare capacity; optionally a second value sharing the slices of the first is marshalled into another message afterwards (the first message must not change); the message marshalled into is fresh from NewMessage or (3 in 8) already used: carries AVPs added with AddAVP, or the same / a zero value of the struct was marshalled into it before; values incl. zero numbers, empty strings, nil pointers, nil and empty slices; non-trivial = at least 2 fields in total and at least one pointer / slice / nested / embedded shape; distinct by hash of the JSON form of the case"
 
 var prop = ev.Register(&ev.Prop[Case]{
 	ID: "C18", Name: "struct", Rule: rule,
@@ -86,6 +93,7 @@ const (
 	stDirect        = "roundtrip-direct-differs"
 	stWireRead      = "wire-read-error"
 	stWire          = "roundtrip-wire-differs"
+	stLaterMarshal  = "message-changed-by-later-marshal"
 	sigAVPField     = "avp-field-marshal"
 	sigOmitInverted = "omitempty-inverted"
 	sigIPv6QoS      = "ipv6-qos-marshal"
@@ -141,7 +149,11 @@ func core(c Case) *verdict {
 		return &verdict{stage: stHarness, detail: fmt.Sprintf("cannot build the struct type: %v %s", err, pan)}
 	}
 	orig := reflect.New(typ)
+	if c.SpareCap {
+		spareCap = 3
+	}
 	fillStruct(orig.Elem(), c.Type, c.Val)
+	spareCap = 0
 	show := func() string { return fmt.Sprintf("struct type %s, application %d", clipS400(typ.String()), c.App) }
 
 	m := diam.NewMessage(c.Cmd, c.Flags, c.App, 1, 2, p)
@@ -224,6 +236,23 @@ func core(c Case) *verdict {
 	}
 	if d := cmpStruct(fresh2.Elem(), c.Type, c.Val, ""); d != "" {
 		return &verdict{stage: stWire, detail: fmt.Sprintf("Unmarshal after Serialize + ReadMessage does not reproduce the value: %s; %s", d, show())}
+	}
+	if c.Second {
+		second := reflect.New(typ)
+		second.Elem().Set(orig.Elem())
+		for i := 0; i < typ.NumField(); i++ {
+			if f := second.Elem().Field(i); f.Kind() != reflect.Slice && f.CanSet() {
+				f.Set(reflect.Zero(f.Type()))
+			}
+		}
+		m2 := diam.NewMessage(c.Cmd, c.Flags, c.App, 3, 4, p)
+		protect(func() error { return m2.Marshal(second.Interface()) })
+		if d := compareAVPs(want, m.AVP, ""); d != "" {
+			return &verdict{stage: stLaterMarshal, detail: fmt.Sprintf("after ANOTHER value of the type (sharing the slices of the first) was marshalled into ANOTHER message, the first message no longer holds the AVPs of its value: %s; %s", d, show())}
+		}
+		if again, err := m.Serialize(); err != nil || !bytes.Equal(again, wire) {
+			return &verdict{stage: stLaterMarshal, detail: fmt.Sprintf("after another value of the type was marshalled into another message, the first message serialises differently (err %v); %s", err, show())}
+		}
 	}
 	return nil
 }
@@ -581,6 +610,12 @@ func classify(c Case) (bool, []string) {
 	}
 	if c.Prefill != "" {
 		cl = append(cl, "message-before:"+c.Prefill)
+	}
+	if c.SpareCap {
+		cl = append(cl, "slices-with-spare-capacity")
+	}
+	if c.Second {
+		cl = append(cl, "second-value-sharing-slices")
 	}
 	for k := range s.classes {
 		cl = append(cl, k)
